@@ -8,6 +8,8 @@ seeds = st.integers(0, 2 ** 32 - 1)
 
 
 def payload_len(big=True, cap=200000):
+    if not big:
+        cap = min(cap, 300)        # "small" really means small (fault enumerations re-run a case thousands of times)
     parts = [
         (6, st.integers(0, 40)),
         (4, st.sampled_from([n for n in BOUNDARY_LENS if n <= cap])),
